@@ -63,6 +63,8 @@ func main() {
 		os.Exit(loadfam.GrowEcho())
 	case "grow-exitcodes":
 		os.Exit(clifam.GrowExitCodes())
+	case "selftest":
+		os.Exit(execfam.SelfTest())
 	case "grow":
 		// every specification grown beyond the listed properties, against the CLI
 		rc := 0
